@@ -31,7 +31,7 @@ func main() {
 	prop := flag.String("property", "", "select contracts tagged with this property")
 	flag.Var(&funcs, "func", "verify only this function (pkg.Name); repeatable")
 	timeout := flag.Int("timeout", 10, "per-solver timeout in seconds")
-	par := flag.Int("par", 5, "obligations in flight")
+	par := flag.Int("par", 10, "obligations in flight")
 	out := flag.String("out", "", "directory for SMT scripts (default: temp)")
 	jsonOut := flag.String("json", "", "write results as JSON")
 	verbose := flag.Bool("v", false, "verbose")
